@@ -412,6 +412,17 @@ func c07Commands(e *core.Env, r *core.Rand, i int64) {
 			}
 			outs = append(outs, fmt.Sprintf("%v => code %d\n%s\n%s", c, res.Code, res.Out, res.Err))
 		}
+		// several input files, a big one in front of a small one: the order of records and of errors is the order of the arguments
+		for _, c := range cmds[:3] {
+			big := writeFile(e.Dir, "in-big.klg", strings.Repeat(text+"\n\n", 30))
+			small := writeFile(e.Dir, "in-small.klg", text)
+			res := obs.RunCLI(env, append(append([]string{}, c...), big, small)...)
+			cnt++
+			if res.Panic != nil {
+				e.Violation("command-panic: "+res.Panic.Site(), fmt.Sprintf("klog %v (two files) with %d CPUs panicked: %s", c, cpus, res.Panic.Value), map[string]any{"text": text, "cmd": c, "cpus": cpus})
+			}
+			outs = append(outs, fmt.Sprintf("%v BIG SMALL => code %d\n%s\n%s", c, res.Code, res.Out, res.Err))
+		}
 		for _, c := range mut {
 			f := writeFile(e.Dir, "in.klg", text)
 			res := obs.RunCLI(env, append(append([]string{}, c...), f)...)
